@@ -83,7 +83,7 @@ def screen_case(
         unobs.append(observed.pop())
     while len(observed) < min(ensure_observed, len(plates) - ensure_unobserved) and len(unobs) > ensure_unobserved:
         observed.append(unobs.pop())
-    return {"arity": a, "control": ctl, "rows": rows, "observed": sorted(observed)}
+    return {"arity": a, "control": ctl, "rows": rows, "observed": sorted(observed), "layout": draw(st.sampled_from(LAYOUTS))}
 
 
 def arrays(case):
@@ -97,7 +97,37 @@ def arrays(case):
     ob = np.array([float(r["o"]) for r in rows], dtype=float).reshape(n)
     obs_set = set(case.get("observed", []))
     mask = np.array([r["p"] in obs_set for r in rows], dtype=bool).reshape(n)
+    layout = case.get("layout")
+    if layout:
+        tn, td, sn, pn, ob, mask = [relayout(x, layout) for x in (tn, td, sn, pn, ob, mask)]
     return tn, td, sn, pn, ob, mask
+
+
+LAYOUTS = [None, None, None, "F", "strided", "wide"]  # (object arrays are refused by the Screen constructor)
+
+
+def relayout(x, layout):
+    """the same array VALUES in another memory representation a caller may legitimately hand over: column-major ("F", what
+    DataFrame[[a, b]].to_numpy() gives), a strided view into a larger buffer ("strided"), wider string items than needed ("wide"),
+    or an object array of Python strings ("object"; strings only)"""
+    if layout == "F":
+        return np.asfortranarray(x)
+    if layout == "strided":
+        big = np.empty(tuple(2 * d + 1 for d in x.shape), dtype=x.dtype)
+        if x.dtype.kind == "U":
+            big[...] = "?"
+        elif x.dtype.kind == "f":
+            big[...] = np.nan
+        else:
+            big[...] = 0
+        view = big[tuple(slice(1, None, 2) for _ in x.shape)]
+        view[...] = x
+        return view
+    if layout == "wide" and x.dtype.kind == "U":
+        return x.astype("<U%d" % (x.dtype.itemsize // 4 + 7))
+    if layout == "object" and x.dtype.kind == "U":
+        return x.astype(object)
+    return x
 
 
 def build_screen(case, treatment_mapping=None, sample_mapping=None, rows=None):
@@ -291,7 +321,7 @@ def simple_screen(
         unobs.append(observed.pop())
     while len(observed) < min(ensure_observed, len(plates) - ensure_unobserved) and len(unobs) > ensure_unobserved:
         observed.append(unobs.pop())
-    return {"arity": arity, "control": "ctl", "rows": rows, "observed": sorted(observed), "ns": ns, "nt": nt}
+    return {"arity": arity, "control": "ctl", "rows": rows, "observed": sorted(observed), "ns": ns, "nt": nt, "layout": draw(st.sampled_from(LAYOUTS))}
 
 
 def space_mappings(ns, nt):
